@@ -102,7 +102,16 @@ func genInput() *rapid.Generator[[]byte] {
 		var out []byte
 		n := rapid.IntRange(0, 10).Draw(t, "pieces")
 		for i := 0; i < n; i++ {
-			switch rapid.IntRange(0, 9).Draw(t, "kind") {
+			switch rapid.IntRange(0, 10).Draw(t, "kind") {
+			case 10: // backslash + one hex digit + one arbitrary byte, in either order
+				out = append(out, '\\')
+				h := "0123456789abcdefABCDEF"[rapid.IntRange(0, 21).Draw(t, "h1")]
+				b := rapid.Byte().Draw(t, "anybyte")
+				if rapid.Bool().Draw(t, "hexfirst") {
+					out = append(out, h, b)
+				} else {
+					out = append(out, b, h)
+				}
 			case 0:
 				out = append(out, ten[rapid.IntRange(0, 8).Draw(t, "esc")])
 			case 1:
@@ -455,6 +464,27 @@ func TestC16Sweep(t *testing.T) {
 					ev.Case(l >= 2, fmt.Sprintf("%q|%v|%v", in, sc.cuts, sc.caps), "sweep")
 					checkAll(t, in, sc)
 				}
+			}
+		}
+	}
+}
+
+// TestC16PairSweep enumerates, completely, every two-byte continuation of a
+// backslash (65536 inputs): only the ten defined sequences, in either hex
+// case, may be altered by Unescape, and Escape must treat every byte alike.
+func TestC16PairSweep(t *testing.T) {
+	ev.Begin(t)
+	for x := 0; x < 256; x++ {
+		for y := 0; y < 256; y++ {
+			in := []byte{'a', '\\', byte(x), byte(y), 'z'}
+			_, isSeq := refSeq(in, 1)
+			ev.Case(true, fmt.Sprintf("%q", in), "pair-sweep")
+			if isSeq {
+				ev.Class("pair-sweep-defined-sequence")
+			}
+			checkAll(t, in, schedule{cuts: []int{len(in)}, caps: []int{4096}})
+			if ev.Thorough() || isSeq || x < 0x20 || y < 0x20 {
+				checkAll(t, in, schedule{cuts: byteCuts(len(in)), caps: []int{3}})
 			}
 		}
 	}
